@@ -8,7 +8,7 @@
 #              both accesses are inside these
 META = {
     "pending_reason": "not claimed yet: the monitor for this property is still being built (see DESIGN.md Appendix C); the technique applies",
-    "hook_commits": ["8c2d351"],
+    "hook_commits": ["8c2d351", "da19a0b"],
     "notes": "All checks are runtime monitors over executions of the real code built from /repo's working tree (go test -overlay, tag verif). Verdicts: exit 0 held on what was observed, exit 1 VIOLATION, exit 2 broken/inconclusive run. Known findings: known_findings.json.",
     "engines": [
         {"name": "vcheck", "path": "/verif/vcheck", "serves_properties": [], "kind_free_text": "python driver: overlay build of /repo + harness, sharded runs, merge of observations, known-findings matching, evidence"},
@@ -159,6 +159,24 @@ CHECKS = {
         "level_note": 'Trusted: generator ground truth of who loses which outpoint; sequential DD engine (block processing and tx processing do not race here).',
         "runs": [
             {"pkg": "internal/spynode", "test": "TestVerif_C06"},
+        ],
+    },
+    "C11": {
+        "level": "exploration",
+        "technique": "runtime monitoring: state-equality monitor across restart (unconfirmed set before vs after through an accessor) plus offline callback checker for post-restart behaviour, over generated histories with restarts at generated quiescent points",
+        "level_text": "Generated delivery / conflict / confirmation histories with clean restarts inserted at quiescent points run through the real node; at each restart the unconfirmed set (txids, unsafe/safe/trusted flags, first-seen time to the millisecond) read before the stop must equal the set the new node loads; after the restart re-announcements must not be delivered again, confirmations must be updates with valid proofs, and GetTx must return exactly the delivered transaction. The unconfirmed file round trip is exercised for all 8 flag combinations and the empty set. Exploration: histories and restart positions are unbounded.",
+        "level_note": "Trusted: overlay accessor reading the unconfirmed map under its lock; clean restart re-issues the three saves Run performs at shutdown. 'Reported safe once' across restart is judged by the C07 monitor, which runs the real delay checker.",
+        "runs": [
+            {"pkg": "internal/spynode", "test": "TestVerif_C11"},
+        ],
+    },
+    "C07": {
+        "level": "exploration",
+        "technique": "runtime monitoring: per-txid trace checker over recorded notifications while the real delay-checker goroutine runs concurrently with directly driven tx/block processing; a failpoint-style hook widens the checker's fetch->save window and counts iterations; thorough tier under the Go race detector",
+        "level_text": "Each scenario runs the real checkTxDelays goroutine (SafeTxDelay 300 ms) concurrently with generated arrivals from trusted/untrusted/local sources, conflicting arrivals placed before, inside (hook-held fetch->save window) and after the expiry, confirmations racing the checker and clean restarts; the recorded per-txid notification trajectory of both handlers is checked against the trace specification (never safe&unsafe, cancelled=>unsafe, no safe after unsafe/cancelled, unconfirmed safe only after the trusted peer vouched and not before first_send+delay, at most once also across restarts, and within 20 checker iterations when warranted). Exploration: relative timings are unbounded; the hook makes the critical window reachable.",
+        "level_note": "Trusted: harness clock over-approximates the age (only 'too early' is judged), iteration counting through hook node.safe.iteration (absence => inconclusive, never a timer verdict), tx and block processing share the harness goroutine (they race with the checker, not with each other).",
+        "runs": [
+            {"pkg": "internal/spynode", "test": "TestVerif_C07"},
         ],
     },
 }
